@@ -316,6 +316,14 @@ def _gen_pool(rng, sw):
         s["optimize_kind"] = "edge"
         s["edge_as_list"] = rng.random() < 0.5
         add(s, "optimize-edge-path")
+    # seeded optimizer objects (two different seeds) as `optimize` on the same contraction
+    if sw.random() < 0.35:
+        for k in (1, 2):
+            s2 = copy.deepcopy(base)
+            s2["optimize"] = f"<RandomGreedyOptimizer seed={k}>"
+            s2["optimize_kind"] = "seeded-object"
+            s2["opt_seed"] = 1000 * k + rng.randrange(100)
+            add(s2, f"seeded-optimizer-object-{k}")
     # a caching optimizer instance as `optimize`, on the base and on look-alikes of it
     if sw.random() < 0.4:
         for sp in list(pool):
@@ -439,6 +447,11 @@ def _materialise(spec):
         opt = [tuple(p) for p in opt]
     elif kind == "edge":
         opt = list(opt) if spec.get("edge_as_list") else tuple(opt)
+    elif kind == "seeded-object":
+        # a fresh seeded optimizer object per call (never hashable for the interface caches)
+        from cotengra.pathfinders.path_basic import RandomGreedyOptimizer
+
+        opt = RandomGreedyOptimizer(max_repeats=3, seed=spec["opt_seed"], parallel=False, temperature=(0.5, 1.0))
     elif kind == "reusable-instance":
         # one caching optimizer OBJECT handed to many calls (subject); the reference side gets a fresh one per call
         opt = _INSTANCES["subject"] if _INSTANCES["use_subject"] else _new_instance()
